@@ -11,7 +11,11 @@ R2  one behaviour per completing transition of Selection's state graph (+ every 
 R3  real indexHashedNodesCoordinator(+WithRater) instances (LRU cache / no cache / fresh from the epoch's lists /
     restored from the boot storage), real shuffler, several epochs incl. re-prepared ones; every
     ComputeConsensusGroup call is logged with the hash values it consumed and validated by TLC.
+    Concurrent use: 8 goroutines call ComputeConsensusGroup on ONE coordinator for the same shard (identical and
+    different inputs); results are compared with the sequential reference, logged for TLC (ComputeConc: calls are
+    atomic, the result is a function of the input), and the stage is repeated under the Go race detector.
 """
+import glob
 import os
 import vlib
 
@@ -61,6 +65,8 @@ def run(ctx):
         "through GetAllEligibleValidatorsPublicKeys and NodesCoordinatorToRegistry",
         "which entries the LRU group cache keeps is not modelled (C28); a cache hit must return what was stored since "
         "the last clear, a recomputation is always allowed",
+        "concurrent calls are required to be atomic (ConsensusGroup!ComputeConc); the concurrent stage sees only "
+        "interleavings that 8 goroutines x 800 calls per coordinator (and the race detector run) expose",
         "a divergence of the real result from the transcribed sampling algorithm is reported as drift, not as a "
         "violation: C15 does not prescribe the algorithm, only size / distinctness / membership / reproducibility")
     # ---- R1 layer 1: the sampling algorithm, exhaustive
@@ -147,10 +153,43 @@ def run(ctx):
         vlib.selftest_rejects(ctx, sd, "Trace_Selection", "Trace_Selection.cfg", tr, corrupt2)
         # ... and the observation-only configuration must flag it through the property invariants
         vlib.selftest_rejects(ctx, sd, "Trace_Selection", "Trace_Selection_obs.cfg", ctx.path("coord.trace"), corrupt2)
+    # ---- concurrent use: G goroutines on ONE coordinator, same shard; results vs the sequential reference
+    tr = ctx.path("conc.trace")
+    h = ctx.vh(exe, ["concurrent", tr, 4 if q else 16, 8, 800], timeout=900)
+    if h.rc != 0:
+        return
+    ev = int(h.stats.get("events", 0))
+    st, _ = vlib.validate_trace(ctx, sd, "Trace_Selection", "Trace_Selection.cfg", tr, ev, "C15/concurrent",
+                                divergence_is_violation=False, timeout=1800, obs_cfg="Trace_Selection_obs.cfg",
+                                what="ComputeConsensusGroup called from 8 goroutines on one coordinator")
+    if st in ("accepted", "rejected"):
+        ctx.cov(traces_validated_against_impl=int(h.stats.get("scenarios", 0)),
+                evaluations=int(h.stats.get("concurrent_calls", 0)), distinct_nontrivial=int(h.stats.get("distinct", 0)),
+                concurrent_calls=int(h.stats.get("concurrent_calls", 0)),
+                concurrent_results_differing_from_sequential=int(h.stats.get("concurrent_differ", 0)))
+    # ... and under the race detector (a racing ComputeConsensusGroup has no defined result at all)
+    rexe = ctx.go_build("vh-selection", race=True)
+    rlog = ctx.path("racelog")
+    hr = ctx.vh(rexe, ["concurrent", ctx.path("conc-race.trace"), 2 if q else 6, 8, 150], timeout=900, count_samples=False,
+                env={"GORACE": "exitcode=0 halt_on_error=0 log_path=" + rlog})
+    reports = []
+    for f in sorted(glob.glob(rlog + ".*")):
+        reports += [r for r in open(f, errors="replace").read().split("==================") if "DATA RACE" in r]
+    mine = [r for r in reports if "/sharding." in r and "ComputeConsensusGroup" in r]
+    ctx.cov(race_detector_calls=int(hr.stats.get("concurrent_calls", 0)), race_reports=len(reports))
+    if mine:
+        ctx.violation("C15/concurrent/data-race",
+                      "data race inside concurrent ComputeConsensusGroup calls on one coordinator (the group is not a "
+                      "function of the inputs): " + mine[0].strip()[:1500], {"report": mine[0][:6000], "reports": len(mine)})
+    elif reports:
+        ctx.notes.append("race detector reports outside sharding.ComputeConsensusGroup (not C15): %d" % len(reports))
     ctx.cov(rule="R2: every transition of the sampling state machine that completes a call (weights 0..3, lists <= %d, "
                  "every sample size 0..n+1, every residue of every pick; distinct = distinct (weights, size, residue "
                  "sequence)) executed on the real selectorExpandedList with scripted 64 bit hash values and validated by "
                  "TLC; R3: ComputeConsensusGroup on real coordinators (plain / with rater; LRU cache, no cache, fresh, "
                  "restored from storage; 1-3 shards + metachain; list sizes from exactly the group size upward; current "
                  "and previous epoch; re-prepared epochs); distinct = distinct (class, shards, group size, list size, "
-                 "meta?, old epoch?, resulting group)" % (4 if q else 5))
+                 "meta?, old epoch?, resulting group); concurrent stage: 8 goroutines x 800 calls per coordinator (no cache / "
+                 "2-entry LRU; plain / rater; one shard; 16 inputs incl. a hot one), every result compared with the "
+                 "sequential reference, differing results + a sample validated by TLC; plus a run under the Go race "
+                 "detector" % (4 if q else 5))
